@@ -123,7 +123,9 @@ pub fn recount(keys: &[Key], own_steps_of: &dyn Fn(usize) -> usize) -> Recount {
             if own_steps_of(sc.2) == 0 {
                 c.has_retried_without_own_steps = true;
             }
-            if idxs[1..].iter().any(|i| attempts[*i].1.iter().any(|k| matches!(k.what, What::HookFailed(..)))) {
+            // (D5b: only a Before-hook failure meets the stale indicator when the scenario has own
+            // steps; without own steps the shape above already applies)
+            if idxs[1..].iter().any(|i| attempts[*i].1.iter().any(|k| matches!(k.what, What::HookFailed(true, _)))) {
                 c.has_hook_failure_after_retry = true;
             }
         }
